@@ -15,6 +15,7 @@ obs   = <ok|exception tag> <uboot bootlog chars|~> <linux bootlog chars|~> <even
   event = on/<t> off/<t> u/<t> b/<t> l/<t> r/<n>/<timeout|->/<t0>/<t1>/<hex|!> w/<t>/<hex>"""
 import contextlib
 import time
+import zlib
 import vclock
 vclock.install()
 import tbot  # noqa: E402
@@ -126,6 +127,13 @@ def _run_case(line: str) -> str:
     ch = tch.Channel(io)
     if chunk != tch.Channel.READ_CHUNK_SIZE:
         ch.__class__ = type("ChannelChunk", (tch.Channel,), {"READ_CHUNK_SIZE": chunk, "__slots__": ()})
+    if zlib.crc32(line.encode()) % 2 == 1:
+        # the console channel was used by another machine before (e.g. the channel `UBootShell.boot()` returned, or a
+        # board console shared with an earlier shell): it carries that machine's prompt and write black-list
+        import shellio
+        ch._write_blacklist = list(shellio.FOREIGN_BLACKLIST)
+        ch.prompt = shellio.FOREIGN_PROMPT
+        ch = ch.take()
 
     class Conn(connector.Connector):
         def _connect(self):
